@@ -1,9 +1,193 @@
 import Driver.Util
-open Lean
+import NixModel.Pure.Frame
+open Lean Nix Nix.Frame
 
 namespace Driver.C16
 
-/-- stub: replaced when the model of C16 is built -/
-def main : IO Unit := pureLoop fun _ => bad "C16: model driver not built yet"
+def tyOf? : String → Option ColType
+  | "text" => some .text | "i8" => some .i8 | "i16" => some .i16 | "i32" => some .i32
+  | "i64" => some .i64 | "u8" => some .u8 | "f64" => some .f64 | "bool" => some .bool
+  | _ => none
+
+def tyStr : ColType → String
+  | .text => "text" | .i8 => "i8" | .i16 => "i16" | .i32 => "i32"
+  | .i64 => "i64" | .u8 => "u8" | .f64 => "f64" | .bool => "bool"
+
+def parseRat? (s : String) : Option Rat :=
+  match s.splitOn "/" with
+  | [a, b] => match a.toInt?, b.toNat? with
+    | some n, some d => if d = 0 then none else some (mkRat n d)
+    | _, _ => none
+  | _ => none
+
+def val? (j : Json) : Option Val :=
+  match (jArr j).toList with
+  | [Json.str "i", n] => (jInt? n).map Val.int
+  | [Json.str "f", Json.str s] => (parseRat? s).map Val.flt
+  | [Json.str "b", Json.bool b] => some (Val.bool b)
+  | [Json.str "s", Json.str s] => some (Val.str s)
+  | _ => none
+
+def valJ : Val → Json
+  | .int n => Json.arr #[Json.str "i", Json.num (JsonNumber.fromInt n)]
+  | .flt r => Json.arr #[Json.str "f", Json.str (ratStr r)]
+  | .bool b => Json.arr #[Json.str "b", Json.bool b]
+  | .str s => Json.arr #[Json.str "s", Json.str s]
+
+def listOf? {α : Type} (p : Json → Option α) (j : Json) : Option (List α) :=
+  match j with
+  | .arr a => a.toList.mapM p
+  | _ => none
+
+def optOf? {α : Type} (p : Json → Option α) (j : Json) : Option (Option α) :=
+  if isNull j then some none else (p j).map some
+
+def str? : Json → Option String | .str s => some s | _ => none
+def ty? (j : Json) : Option ColType := (str? j).bind tyOf?
+def row? : Json → Option (List Val) := listOf? val?
+def rows? : Json → Option (List (List Val)) := listOf? row?
+def ints? : Json → Option (List Int) := listOf? jInt?
+def col? (j : Json) : Option (String × ColType) :=
+  match (jArr j).toList with
+  | [Json.str n, t] => (ty? t).map (fun t => (n, t))
+  | _ => none
+def cols? : Json → Option (List (String × ColType)) := listOf? col?
+
+def rowJ (r : Row) : Json := Json.arr (r.map valJ).toArray
+def rowsJ (rs : List Row) : Json := Json.arr (rs.map rowJ).toArray
+def unitJ : Option String → Json | none => Json.null | some u => Json.str u
+
+def dump (f : Frame) : Json :=
+  Json.mkObj [
+    ("cols", Json.arr (f.cols.map (fun c => Json.arr #[Json.str c.1, Json.str (tyStr c.2)])).toArray),
+    ("rows", rowsJ f.rows),
+    ("units", match unitsOf f with | none => Json.null | some us => Json.arr (us.map unitJ).toArray),
+    ("shape", Json.arr #[Json.num (JsonNumber.fromNat (dfShape f).1), Json.num (JsonNumber.fromNat (dfShape f).2)]),
+    ("row_count", Json.num (JsonNumber.fromNat (rowCount f))),
+    ("columns", Json.arr ((columns f).map (fun c =>
+        Json.arr #[Json.str c.1, Json.str (tyStr c.2.1), unitJ c.2.2])).toArray)]
+
+/-- cells outside the modelled domain (see the header of Pure/Frame.lean) -/
+def bigForFloat (t : ColType) (v : Val) : Bool :=
+  match t, v with
+  | .f64, .int n => decide (n.natAbs > 9007199254740992)
+  | _, _ => false
+
+def cellOutside (nonAtomic : Bool) (t : ColType) (v : Val) : Bool :=
+  bigForFloat t v || (nonAtomic && t == .text && (match v with | .str _ => false | _ => true))
+
+def rowsOutside (nonAtomic : Bool) (ts : List ColType) (rows : List (List Val)) : Bool :=
+  rows.any (fun r => (ts.zip r).any (fun p => cellOutside nonAtomic p.1 p.2))
+
+def created (r : Except Err Frame) : Option Frame × Json :=
+  match r with
+  | .ok f => (some f, ok (dump f))
+  | .error e => (none, err e)
+
+def wrote (p : Frame × Option Err) : Option Frame × Json :=
+  match p.2 with
+  | none => (some p.1, ok Json.null)
+  | some e => (some p.1, err e)
+
+def readOut {α : Type} (s : Option Frame) (r : Except Err α) (j : α → Json) : Option Frame × Json :=
+  match r with
+  | .ok v => (s, ok (j v))
+  | .error e => (s, err e)
+
+def outside : Option Frame × Json := (none, bad "C16: input outside the modelled domain")
+
+def handle (s : Option Frame) (j : Json) : Option Frame × Json :=
+  match (jArr j).toList with
+  | [Json.str "create_dict", cs, d] =>
+    match cols? cs, optOf? rows? d with
+    | some cs, some d =>
+      if rowsOutside true (cs.map (·.2)) (d.getD []) then outside else created (createDict cs d)
+    | _, _ => (s, bad "C16: create_dict")
+  | [Json.str "create_names_types", ns, ts, d] =>
+    match listOf? str? ns, listOf? ty? ts, optOf? rows? d with
+    | some ns, some ts, some d =>
+      if rowsOutside true ts (d.getD []) then outside else created (createNamesTypes ns ts d)
+    | _, _, _ => (s, bad "C16: create_names_types")
+  | [Json.str "create_names_data", ns, d] =>
+    match listOf? str? ns, optOf? rows? d with
+    | some ns, some d =>
+      let ts := match d with | some (r :: _) => r.map typeOfVal | _ => []
+      if rowsOutside true ts (d.getD []) then outside else created (createNamesData ns d)
+    | _, _ => (s, bad "C16: create_names_data")
+  | [Json.str "create_struct", cs, d] =>
+    match cols? cs, rows? d with
+    | some cs, some d =>
+      if rowsOutside true (cs.map (·.2)) d then outside else created (createStruct cs d)
+    | _, _ => (s, bad "C16: create_struct")
+  | op :: args =>
+    match s with
+    | none => (s, bad "C16: no frame")
+    | some f =>
+      match op, args with
+      | Json.str "dump", [] => (s, ok (dump f))
+      | Json.str "reopen", [] => (s, ok Json.null)
+      | Json.str "append_rows", [d] =>
+        match rows? d with
+        | some d => if rowsOutside false f.types d then outside else wrote (step f (.appendRows d))
+        | none => (s, bad "C16: append_rows")
+      | Json.str "append_column", [c, Json.str n, t] =>
+        match row? c, optOf? ty? t with
+        | some c, some t =>
+          let tt := match t, c with | some t, _ => t | none, v :: _ => typeOfVal v | none, [] => .i64
+          if c.any (cellOutside false tt) then outside else wrote (step f (.appendColumn c n t))
+        | _, _ => (s, bad "C16: append_column")
+      | Json.str "write_rows", [d, ix] =>
+        match rows? d, ints? ix with
+        | some d, some ix => if rowsOutside false f.types d then outside else wrote (step f (.writeRows d ix))
+        | _, _ => (s, bad "C16: write_rows")
+      | Json.str "write_row_flat", [d, ix] =>
+        match row? d, ints? ix with
+        | some (Val.str _ :: _), _ => outside
+        | some d, some ix => if rowsOutside false f.types [d] then outside else wrote (step f (.writeRowFlat d ix))
+        | _, _ => (s, bad "C16: write_row_flat")
+      | Json.str "write_column", [c, ix, n] =>
+        match row? c, optOf? jInt? ix, optOf? str? n with
+        | some c, some ix, some n => wrote (step f (.writeColumn c ix n))
+        | _, _, _ => (s, bad "C16: write_column")
+      | Json.str "write_cell_pos", [c, p] =>
+        match val? c, ints? p with
+        | some c, some p => wrote (step f (.writeCellPos c p))
+        | _, _ => (s, bad "C16: write_cell_pos")
+      | Json.str "write_cell_name", [c, Json.str n, r] =>
+        match val? c, jInt? r with
+        | some c, some r => wrote (step f (.writeCellName c n r))
+        | _, _ => (s, bad "C16: write_cell_name")
+      | Json.str "set_units", [us] =>
+        match listOf? (optOf? str?) us with
+        | some us => wrote (step f (.setUnits us))
+        | none => (s, bad "C16: set_units")
+      | Json.str "read_row", [i] =>
+        match jInt? i with
+        | some i => readOut s (readRow f i) rowJ
+        | none => (s, bad "C16: read_row")
+      | Json.str "read_rows", [ix] =>
+        match ints? ix with
+        | some ix => readOut s (readRows f ix) rowsJ
+        | none => (s, bad "C16: read_rows")
+      | Json.str "read_columns_idx", [ix, lo, hi] =>
+        match ints? ix, optOf? jInt? lo, optOf? jInt? hi with
+        | some ix, some lo, some hi => readOut s (readColumns f (colsByIndex f.cols.length ix) lo hi) rowsJ
+        | _, _, _ => (s, bad "C16: read_columns_idx")
+      | Json.str "read_columns_name", [ns, lo, hi] =>
+        match listOf? str? ns, optOf? jInt? lo, optOf? jInt? hi with
+        | some ns, some lo, some hi => readOut s (readColumns f (colsByName f.cols (if ns.length = 1 then .valueError else .keyError) ns) lo hi) rowsJ
+        | _, _, _ => (s, bad "C16: read_columns_name")
+      | Json.str "read_cell_pos", [p] =>
+        match ints? p with
+        | some p => readOut s (readCellPos f p) valJ
+        | none => (s, bad "C16: read_cell_pos")
+      | Json.str "read_cell_name", [Json.str n, r] =>
+        match jInt? r with
+        | some r => readOut s (readCellName f n r) valJ
+        | none => (s, bad "C16: read_cell_name")
+      | _, _ => (s, bad "C16: unknown op")
+  | _ => (s, bad "C16: not an op")
+
+def main : IO Unit := loop (none : Option Frame) handle
 
 end Driver.C16
